@@ -11,7 +11,13 @@ from mypy.nodes import (
     WithStmt,
 )
 
-from refurb.checks.common import get_mypy_type, is_equivalent, is_subclass, stringify
+from refurb.checks.common import (
+    get_mypy_type,
+    is_equivalent,
+    is_subclass,
+    stringify,
+    stringify_operand,
+)
 from refurb.error import Error
 
 
@@ -85,6 +91,6 @@ def check(node: WithStmt, errors: list[Error]) -> None:
             else:
                 new = f"{stringify(write_arg)} for {stringify(for_target)} in {stringify(source)}"
 
-            msg = f"Replace `{old}` with `{stringify(f)}.writelines({new})`"
+            msg = f"Replace `{old}` with `{stringify_operand(f, '.')}.writelines({new})`"
 
             errors.append(ErrorInfo.from_node(for_stmt, msg))
